@@ -289,3 +289,106 @@ Example C15_ex_symbol_history :
   | _ => False
   end.
 Proof. vm_compute. repeat split; reflexivity. Qed.
+
+(* ---- expression symbols (the BExpr block, push_to_expression_symbol_block,
+   op OExprSym) read back through get_symbol_expression ---- *)
+From Coq Require Import Sorted.
+From GV Require Import Proofs.C15.ExprSymbols.
+
+(* the search, exactly: on a table of associative items in nondecreasing key
+   order (duplicates allowed) search_for_associative_item returns the LAST
+   entry carrying the key -- vals sym items lists the values stored under
+   sym in table order -- and None when there is none; never an error *)
+Theorem C15_expression_symbol_search : forall items, (forall c, In c items -> is_assoc c) ->
+  StronglySorted GV.Proofs.C16.BasicSearch.le_cell items -> forall sym,
+  search_for_associative_item items sym = Ok (option_map (CAssociativeItem sym) (last_opt (vals sym items))).
+Proof. exact search_last. Qed.
+Print Assumptions C15_expression_symbol_search.
+
+(* per state: with the layout invariant and a sorted expression-symbol table
+   of associative items, get_symbol_expression sym is the value of the last
+   table entry for sym (None without one) *)
+Theorem C15_expression_symbol_lookup : forall s sym, Inv s -> (forall c, In c (window s BExpr) -> is_assoc c) ->
+  StronglySorted GV.Proofs.C16.BasicSearch.le_cell (window s BExpr) ->
+  get_symbol_expression sym s = Ok (last_opt (vals sym (window s BExpr))).
+Proof. exact expr_lookup. Qed.
+Print Assumptions C15_expression_symbol_lookup.
+
+(* every operation of the history vocabulary except the expression-symbol
+   push (parse_add_symbol included) leaves the BExpr block exactly as it is *)
+Theorem C15_other_ops_keep_expression_symbols : forall o s s' r, G s -> is_expr_op o = false ->
+  bstep o s = Ok (s', r) -> window s' BExpr = window s BExpr.
+Proof. exact other_ops_keep_exprs. Qed.
+Print Assumptions C15_other_ops_keep_expression_symbols.
+
+(* the push makes the block the stable sort of the old table plus the new entry *)
+Theorem C15_expression_symbol_push : forall sym v s s' r, G s -> bstep (OExprSym sym v) s = Ok (s', r) ->
+  window s' BExpr = stable_sort assoc_le (window s BExpr ++ [CAssociativeItem sym v]).
+Proof. exact expr_push_step. Qed.
+Print Assumptions C15_expression_symbol_push.
+
+(* the headline: any history (the whole vocabulary, no side condition on the
+   operations) from a fresh store with progressing settings.  After ops1 and
+   after any continuation ops2, get_symbol_expression sym is Ok of the LAST
+   value pushed for sym so far (expr_pushes sym ops lists the values v of the
+   operations OExprSym sym v of ops in order) -- a symbol pushed twice reads
+   back its most recent value, because the sort is stable and the search
+   lands on the last entry of a run of equal keys -- and Ok None for a
+   symbol never pushed; never an error *)
+Theorem C15_expression_symbol_readback : forall si sj ss se sd sc ops1 ops2,
+  progressing si -> progressing sj -> progressing ss -> progressing se -> progressing sd -> progressing sc ->
+  exists s0 s1 s2 r1 r2,
+    new_with_settings si sj ss se sd sc = Ok (s0, Done tt) /\
+    run bstep ops1 s0 = Ok (s1, r1) /\ run bstep ops2 s1 = Ok (s2, r2) /\
+    (forall sym, get_symbol_expression sym s1 = Ok (last_opt (expr_pushes sym ops1)) /\
+                 get_symbol_expression sym s2 = Ok (last_opt (expr_pushes sym (ops1 ++ ops2)))).
+Proof. exact expression_symbol_readback. Qed.
+Print Assumptions C15_expression_symbol_readback.
+
+(* the same without the auxiliary functions: the value of the last push for
+   sym (no later OExprSym sym _ in the history) is returned; a symbol with no
+   push yields Ok None *)
+Theorem C15_expression_symbol_readback_cases : forall si sj ss se sd sc ops,
+  progressing si -> progressing sj -> progressing ss -> progressing se -> progressing sd -> progressing sc ->
+  exists s0 s1 r1,
+    new_with_settings si sj ss se sd sc = Ok (s0, Done tt) /\ run bstep ops s0 = Ok (s1, r1) /\
+    (forall sym v a b, ops = a ++ OExprSym sym v :: b -> (forall v', ~ In (OExprSym sym v') b) ->
+       get_symbol_expression sym s1 = Ok (Some v)) /\
+    (forall sym, (forall v, ~ In (OExprSym sym v) ops) -> get_symbol_expression sym s1 = Ok None).
+Proof. exact expression_symbol_readback_cases. Qed.
+Print Assumptions C15_expression_symbol_readback_cases.
+
+(* non-vacuity: three expression symbols pushed in non-sorted order (7, 9, 5),
+   the first one a second time with another value, interleaved with data
+   pushes, a symbol registration, a list and the stacks; with growth by one
+   cell every push reallocates the heap *)
+Definition ex_expr_ops1 : list op :=
+  [OExprSym 7%N 2; ONumber (SInt 7%Z); OSymbol 98%N 1 [98%N]; OExprSym 9%N 4; OText 2 [120%N; 121%N];
+   OListStart 1; OListAdd 7 3; OListEnd 7; OExprSym 5%N 6; ORegPush 3; OInstr I_Add None].
+Definition ex_expr_ops2 : list op :=
+  [OPair 0 0; OFramePush 2; OExprSym 7%N 8; OJump 3; OValPush 3; ORegPop; OBytes [1%N; 2%N]].
+
+Example C15_ex_expression_symbol_history :
+  let st := ex_settings 0 (FixedSize 1) in
+  match new_with_settings st st st st st st with
+  | Ok (s0, Done tt) =>
+      match run bstep ex_expr_ops1 s0 with
+      | Ok (s1, _) =>
+          match run bstep ex_expr_ops2 s1 with
+          | Ok (s2, _) =>
+              window s1 BExpr = [CAssociativeItem 5%N 6; CAssociativeItem 7%N 2; CAssociativeItem 9%N 4] /\
+              window s2 BExpr = [CAssociativeItem 5%N 6; CAssociativeItem 7%N 2; CAssociativeItem 7%N 8; CAssociativeItem 9%N 4] /\
+              get_symbol_expression 7%N s1 = Ok (Some 2) /\
+              get_symbol_expression 7%N s2 = Ok (Some 8) /\
+              get_symbol_expression 9%N s2 = Ok (Some 4) /\
+              get_symbol_expression 5%N s2 = Ok (Some 6) /\
+              get_symbol_expression 6%N s2 = Ok None /\
+              expr_pushes 7%N (ex_expr_ops1 ++ ex_expr_ops2) = [2; 8] /\
+              length (heap s0) = 0 /\ length (heap s2) = 25
+          | _ => False
+          end
+      | _ => False
+      end
+  | _ => False
+  end.
+Proof. vm_compute. repeat split; reflexivity. Qed.
